@@ -60,6 +60,8 @@ pub struct Host {
     pub subtask_cancel_while_joined: bool,
     pub subtask_drops: u32,
     pub subtask_dropped_handle: u32,
+    pub subtask_cancel_after_drop: bool,
+    pub subtask_cancelled_handle: u32,
     // ---- unit stream (inter-task wakeup)
     pub unit_new: u32,
     pub unit_reads: u32,
@@ -80,6 +82,8 @@ pub struct Host {
     pub event_seq: u32, // global sequence counter for ordering checks
 }
 
+/// waitable set of mock task `t` is MOCK_SET_BASE + t
+pub const MOCK_SET_BASE: u32 = 100;
 pub const UNIT_W: u32 = 71;
 pub const UNIT_R: u32 = 70;
 
@@ -108,6 +112,8 @@ impl Host {
             subtask_cancel_while_joined: false,
             subtask_drops: 0,
             subtask_dropped_handle: 0,
+            subtask_cancel_after_drop: false,
+            subtask_cancelled_handle: 0,
             unit_new: 0,
             unit_reads: 0,
             unit_read_answer: 0xffff_ffff,
@@ -186,6 +192,8 @@ pub unsafe fn deliver(task: usize, waitable: u32, code: u32) -> bool {
         let e = h().tasks[task].entries[i];
         if e.waitable == waitable {
             h().tasks[task].entries[i] = NOENT;
+            // the waitable leaves every set before its callback runs (WaitableSet::remove_waitable_from_all_sets)
+            unsafe { waitable_join(waitable, 0) };
             unsafe { (e.callback.unwrap())(e.ptr, code) };
             return true;
         }
@@ -219,6 +227,8 @@ pub unsafe extern "C" fn mt_register(
     let t = task_index(ptr);
     assert!(waitable != 0);
     h().tasks[t].registers += 1;
+    // a real task joins the waitable to its own waitable set when it registers it (SharedTaskState::add_waitable)
+    unsafe { waitable_join(waitable, MOCK_SET_BASE + t as u32) };
     let mut i = 0;
     while i < NENT {
         if h().tasks[t].entries[i].waitable == waitable {
@@ -241,6 +251,8 @@ pub unsafe extern "C" fn mt_register(
 pub unsafe extern "C" fn mt_unregister(ptr: *mut c_void, waitable: u32) -> *mut c_void {
     let t = task_index(ptr);
     h().tasks[t].unregisters += 1;
+    // ... and removes it from EVERY set when it unregisters it (WaitableSet::remove_waitable_from_all_sets): `join(w, 0)`
+    unsafe { waitable_join(waitable, 0) };
     let mut i = 0;
     while i < NENT {
         if h().tasks[t].entries[i].waitable == waitable {
@@ -366,6 +378,10 @@ pub unsafe extern "C" fn context_set(v: *mut u8) {
 #[cfg_attr(bytecodealliance_wit_bindgen_verif_native, unsafe(export_name = "[subtask-cancel]"))]
 pub unsafe extern "C" fn subtask_cancel(handle: u32) -> u32 {
     h().subtask_cancels += 1;
+    h().subtask_cancelled_handle = handle;
+    if h().subtask_drops > 0 {
+        h().subtask_cancel_after_drop = true; // the handle is no longer in the subtask table: the host traps
+    }
     if joined_set_of(handle) != 0 || registrations(handle) != 0 {
         h().subtask_cancel_while_joined = true;
     }
